@@ -95,6 +95,7 @@ type Conn struct {
 	asking   bool
 	readonly bool
 	closed   int32
+	mute     bool // only touched by the connection's own goroutine
 }
 
 // Node is one simulated Redis instance.
@@ -511,7 +512,10 @@ func (n *Node) serve(c *Conn) {
 				slept = true
 			}
 		}
-		if rep.NoReply || atomic.LoadInt32(&n.Silent) != 0 {
+		if rep.NoReply || atomic.LoadInt32(&n.Silent) != 0 || c.mute {
+			// a connection that swallowed one request never answers a later one either (replies would be paired with
+			// the wrong requests): it behaves like a hung server until somebody closes it
+			c.mute = true
 			continue
 		}
 		if len(rep.Raw) > 0 {
